@@ -38,6 +38,60 @@ CHECKS = {
         text="Potentials of harmonic/walls/linear over every value type and the ABMD ratchet against the manual's closed forms; centre/force-constant schedules (continuous, staged, lambdaSchedule, decoupling, exponent) at every step; accumulated work; staged TI means; independence from run segmentation via restart at a generated step.",
         note="Schedules exercised on a controlled scalar variable; the phase of the TI equilibration window is accepted in either of the two readings the manual allows.",
         design="DESIGN.md section 4 C06"),
+    "C03": dict(
+        technique="differential property testing (Hypothesis): one run of N steps vs the same run cut at a generated step K, saved (text/binary/string) and restarted in a fresh module; traces compared step by step",
+        level="exploration",
+        text="Generated bias zoo (harmonic schedules, walls, ABF, metadynamics variants, OPES, ABMD, ALB, histogram, extended variables) on controlled variables; cut point, format and output frequencies generated; continuation trace (values, energies, forces, final state) compared at 1e-9; plus purity of saving and off-schedule OPES saves.",
+        note="Two listed known findings (OPES restart, metadynamics state projecting pending hills) are reported as KNOWN-FINDING; text state carries 14 digits so the comparison is at 1e-9, not bitwise.",
+        design="DESIGN.md section 4 C03"),
+    "C07": dict(
+        technique="property-based testing (Hypothesis): inverse/linearity/Jacobian relations between the engine's atomic total forces and the reported variable total force, both timing conventions",
+        level="exploration",
+        text="Generated variables from the total-force-capable component table with generated system forces: reported total force equals the projection of what the engine supplied (closed forms for controlled variables, linearity and one-step lag otherwise), own bias subtracted exactly once in the late convention.",
+        note="Near-singular dihedrals are discarded by a stated filter; eigenvector/alchLambda not in the table.",
+        design="DESIGN.md section 4 C07"),
+    "C08": dict(
+        technique="differential property testing (Hypothesis): superposition (all objects together vs each alone) and multiple-time-step schedule model",
+        level="exploration",
+        text="Generated sets of variables/biases: atomic forces and energy of the joint run equal the sum of single-object runs (rel 1e-10); timeStepFactor k: forces applied k-fold at multiples of k and zero otherwise, biases updated on the coarse steps only.",
+        note="Stateless biases for the sum part; the MTS part uses controlled variables.",
+        design="DESIGN.md section 4 C08"),
+    "C12": dict(
+        technique="property-based testing over schedules (Hypothesis) with the harness owning the schedule: bitwise trace equality under generated work-item orders and real threads; ThreadSanitizer build for races",
+        level="exploration",
+        text="Generated configurations with many variables/biases/scripted functions run with no SMP, a generated serial permutation of work items and 2-8 real threads: traces bitwise equal; error items compare error bits; TSan build reports data races in Colvars frames.",
+        note="Thread interleavings are sampled by the OS scheduler in mode 2 (not enumerated); TSan sees only races that the executed schedule exposes.",
+        design="DESIGN.md section 4 C12"),
+    "C13": dict(
+        technique="stateful property testing (Hypothesis operation lists): create/delete/reconfigure sequences vs a fresh module built with the surviving objects; dependency-graph invariants through a guarded friend hook; ASan replay",
+        level="exploration",
+        text="Generated sequences of config/delete/reset/step operations via script and configuration; after every step the trace equals that of a fresh module holding the same objects, reference counts and atom requests equal those recomputed from the live graph, and no freed memory is touched (ASan).",
+        note="Objects that carry history (extended Lagrangian, history-dependent biases) are excluded from the fresh-module comparison by a taint rule, still covered by the invariants.",
+        design="DESIGN.md section 4 C13"),
+    "C15": dict(
+        technique="property-based testing: Hypothesis bin model for histogram binning; rapidcheck round-trips of grid files (multicolumn, restart text/binary, raw)",
+        level="exploration",
+        text="Values exactly on edges, inside, just outside and far outside; periodic and custom grids, run boundaries; counts per bin exact. Grid objects of generated shape written and re-read in 4 formats: same shape and data.",
+        note="gatherVectorColvars cannot be configured in this code base (vector variables are rejected by the grid feature), so it is not generated.",
+        design="DESIGN.md section 4 C15"),
+    "C16": dict(
+        technique="property-based testing (rapidcheck, direct API): PMF integration against own divergence/Laplacian model, exactness on conservative fields, convergence",
+        level="exploration",
+        text="Generated 1-3 D gradient grids (periodic/non-periodic, with unsampled bins): integrate_potential output satisfies the discrete Poisson equation to the solver tolerance, reproduces analytic potentials of conservative fields up to a constant, 1D equals cumulative sum.",
+        note="Solver tolerance is the code's own (1e-6 default); weighted variants compared through the residual they define.",
+        design="DESIGN.md section 4 C16", engine="rapidcheck targets (rc/)"),
+    "C17": dict(
+        technique="model-based property testing (Hypothesis): independent reference integrator for the extended-Lagrangian degree of freedom driven by a recorded Gaussian tape",
+        level="exploration",
+        text="Generated masses/force constants/friction/temperatures/time steps/timeStepFactor, walls and biases on the extended coordinate, run boundaries and restarts: position, velocity, spring force on atoms and energy at every step equal the reference (rel 1e-9).",
+        note="The random numbers are a tape owned by the harness; the statistical quality of the thermostat is not decided.",
+        design="DESIGN.md section 4 C17"),
+    "C19": dict(
+        technique="property-based testing (Hypothesis): trajectory, running-average and correlation-function files parsed and recomputed from the step trace",
+        level="exploration",
+        text="Generated output frequencies, run boundaries with repeated steps, objects added mid-run, every output flag: one line per eligible step, no duplicates, labels match columns, numbers equal the trace at 14 digits; running average/ACF equal a Python recomputation.",
+        note="Running average of periodic variables is not compared near the seam (not defined by the property).",
+        design="DESIGN.md section 4 C19"),
     "C18": dict(
         technique="property-based testing (rapidcheck, direct API): metric axioms, tangent-space finite differences, closed-form minimum image, wrap interval",
         level="exploration",
@@ -50,12 +104,13 @@ PENDING_REASON = "check under construction in this session; not claimed until it
 
 
 def main():
-    hooks_commits = []
+    hooks_commits = ["bd185528"]
     m = {
         "version": 1,
         "setup_cmd": "make -s -j16 -C /verif rel",
         "hooks": {
             "guard": "COLVARS_VERIF",
+            "sub_guards": "VERIF_DEPS_HOOK (friend declaration in src/colvardeps.h)",
             "enable": "make -C /verif compiles /repo/src/*.cpp with -DCOLVARS_VERIF into /verif/build/<variant>/",
             "baseline_off_cmd": "cmake --build /repo/_build -j16 && ctest --test-dir /repo/_build -j8 --timeout 900",
             "source_commits": hooks_commits,
